@@ -4,6 +4,7 @@
 package hx
 
 import (
+	"io"
 	"bufio"
 	"crypto/sha256"
 	"encoding/hex"
@@ -97,10 +98,12 @@ type Stream struct {
 	NonTr int
 	Finds []Finding
 	Samp  []string
+	scratch bool
 }
 
 // Finding is a monitor verdict: a concrete input/history on which the property fails.
 type Finding struct {
+	ShrunkFrom int     `json:"shrunk_from,omitempty"` // number of operations of the history before delta debugging
 	Property  string   `json:"property"`
 	Stream    string   `json:"stream,omitempty"`
 	Signature string   `json:"signature"`
@@ -123,6 +126,12 @@ func NewStream(name string) *Stream {
 		panic(err)
 	}
 	return &Stream{name: name, fo: fo, fi: fi, ops: bufio.NewWriterSize(fo, 1<<20), impl: bufio.NewWriterSize(fi, 1<<20),
+		Dist: map[string]int{}, seen: map[[32]byte]struct{}{}}
+}
+
+// NewScratchStream collects findings only (nothing is written): used when a history is re-run for shrinking.
+func NewScratchStream(name string) *Stream {
+	return &Stream{name: name, scratch: true, ops: bufio.NewWriter(io.Discard), impl: bufio.NewWriter(io.Discard),
 		Dist: map[string]int{}, seen: map[[32]byte]struct{}{}}
 }
 
@@ -155,6 +164,9 @@ func (s *Stream) Op(op, implAnswer string, nontrivial bool) {
 // Pending records, on disk, the history that is about to be extended by a step that may crash the
 // process (a frame injected into a real daemon): if the stream dies, ./check builds the replay from it.
 func (s *Stream) Pending(lines []string) {
+	if s.scratch {
+		return
+	}
 	s.mu.Lock()
 	defer s.mu.Unlock()
 	os.WriteFile(filepath.Join(OutDir(), s.name+".pending"), []byte(strings.Join(lines, "\n")), 0o644)
@@ -176,7 +188,9 @@ func (s *Stream) Find(f Finding) {
 	}
 	if len(s.Finds) < 200 {
 		s.Finds = append(s.Finds, f)
-		s.writeStats() // findings survive a later crash or hang of the stream
+		if !s.scratch {
+			s.writeStats() // findings survive a later crash or hang of the stream
+		}
 	}
 }
 
